@@ -180,4 +180,38 @@ PROPS = {
             native("c12_sampling", t=["secs=90", "all_f32=1"], name="native-release-all-f32", flavour="release", tiers=("thorough",)),
         ],
     },
+    "C18": {
+        "level": "exploration",
+        "assumptions": [
+            "a borrowed guard excludes every other use of the stopwatch (borrow checker), so it is modelled as one compound op; the exhaustive part allows 2 concurrently live owned guards, the random part 3",
+            "overwrite means: the total becomes this guard's span (the code's documented behaviour); clear removes the total, spans completing afterwards count in full",
+        ],
+        "coverage_extra": {"quick": {"exhaustive": False}, "thorough": {"exhaustive": False}},
+        "legs": [
+            native("c18_timers", ["secs=5", "depth=8"], ["secs=60", "depth=9"]),
+        ],
+    },
+    "C19": {
+        "level": "exploration",
+        "assumptions": [
+            "the scale table in checks/src/bin/c19_units.rs (seconds / bits per unit) is the oracle and is independent of unit.rs; byte and bit rates share the scale of their plain counterparts, as the crate's conversion families do",
+            "'up to floating-point rounding' = 4 ulp; cases whose exact result over/underflows are skipped",
+            "the table of unit pairs is complete by construction: a pair that is not convertible does not compile",
+        ],
+        "coverage_extra": {"quick": {"exhaustive": True}, "thorough": {"exhaustive": True}},
+        "legs": [
+            native("c19_units", ["rounds=3"], ["rounds=60"]),
+        ],
+    },
+    "C17": {
+        "level": "exploration",
+        "assumptions": [
+            "the reference routing state machine (thread-local test sink > runtime test sink > attached sink > none) is the oracle; a forgotten attach handle keeps its sink attached (it can never be detached again), so it is only exercised at the end of a lane",
+            "the racing part asserts Ok <=> written before drop(AttachHandle) returned, which holds in every linearization because try_append keeps the global's read lock while appending",
+        ],
+        "legs": [
+            native("c17_global_sinks", ["secs=8"], ["secs=100"]),
+            native("c17_global_sinks", t=["secs=30", "lanes=3"], name="tsan", flavour="tsan", tiers=("thorough",)),
+        ],
+    },
 }
